@@ -3752,12 +3752,12 @@ class FuncSorted(ValueFunc):
         cmp = (
             args.getFunc("cmp")
             if args.hasArg("cmp")
-            else environment.get("compare", pos)
+            else environment.getBase().get("compare", pos)
         )
         key = (
             args.getFunc("key")
             if args.hasArg("key")
-            else environment.get("identity", pos)
+            else environment.getBase().get("identity", pos)
         )
         result = lst.value[:]
         for i in range(len(result)):
